@@ -20,4 +20,16 @@ fn main() {
             Err(e) => println!("{{\"app\":{},\"ok\":false,\"error\":{}}}", json_str(app), json_str(&e)),
         }
     }
+    // the registry TypeGen's own generators use must be the one traced above; what tracing refuses they must refuse
+    let traced: std::collections::BTreeMap<&str, Option<String>> = apps::registries().into_iter().map(|(a, r)| (a, r.ok().map(|r| serde_json::to_string(&r).unwrap()))).collect();
+    for (app, gen) in apps::typegens() {
+        let dir = format!("{}/java_{}", out, app);
+        let g = gen.and_then(|g| apps::generated_registry(g, &dir)).map(|r| serde_json::to_string(&r).unwrap());
+        let equal = match (&g, traced.get(app)) { (Ok(a), Some(Some(b))) => a == b, (Err(_), Some(None)) => true, _ => false };
+        println!("{{\"generator\":{},\"ok\":{},\"equal\":{},\"error\":{}}}", json_str(app), g.is_ok(), equal, json_str(&g.err().unwrap_or_default()));
+    }
+    let direct = apps::incomplete_typegen().and_then(|g| { let mut g = g; match std::mem::replace(&mut g.state, crux_core::typegen::State::Generating(Default::default())) {
+        crux_core::typegen::State::Registering(t, _) => t.registry().map(|_| ()).map_err(|e| e.to_string()), _ => Ok(()) } });
+    let viagen = apps::incomplete_typegen().and_then(|g| apps::generated_registry(g, &format!("{}/java_incomplete", out)).map(|_| ()));
+    println!("{{\"incomplete\":true,\"tracer_refuses\":{},\"generator_refuses\":{}}}", direct.is_err(), viagen.is_err());
 }
